@@ -52,4 +52,17 @@ static inline int spec_cbor_head(uint8_t major, uint64_t arg, uint8_t out[9])
  * full 64-bit argument; representable in int64 iff arg <= 2^63-1 */
 static inline int spec_cbor_nint_fits_i64(uint64_t arg) { return arg <= (uint64_t)INT64_MAX; }
 static inline int64_t spec_cbor_nint_i64(uint64_t arg) { return (int64_t)(-1 - (int64_t)arg); }
+/* stringref (http://cbor.schmorp.de/stringref), table "minimum string length": a string is assigned the next index only if
+ * referencing it would be shorter than the string itself:
+ *   index 0..23 -> 3, 24..255 -> 4, 256..65535 -> 5, 65536..4294967295 -> 7, 4294967296.. -> 11.
+ * Encoder and decoder must apply the same rule to the same running index (the number of strings assigned so far, text and
+ * byte strings share one namespace), otherwise every later reference is off. */
+static inline size_t spec_strref_min_length(uint64_t index)
+{
+    if (index <= 23) return 3;
+    if (index <= 255) return 4;
+    if (index <= 65535) return 5;
+    if (index <= 4294967295ull) return 7;
+    return 11;
+}
 #endif
